@@ -10,6 +10,7 @@ use serde_json::Value;
 use serde_json::json;
 
 mod diff_props;
+mod fileset_props;
 mod git_props;
 mod matcher_props;
 mod merge_props;
@@ -35,6 +36,7 @@ fn main() {
             "c12" => refs_props::c12(&case),
             "c26" => wc_props::c26(&case),
             "c30" => matcher_props::c30(&case),
+            "c31" => fileset_props::c31(&case),
             "c33" => git_props::c33(&case),
             _ => json!({"error": format!("unknown property {prop}")}),
         }));
